@@ -66,7 +66,8 @@ def op_coq22(op):
         return 'O2Send %s %s %s %s %s %s (PLit %s) %s %s' % (zz(now), zz(dp), zz(pf), zz(ps), zz(prio), zz(sa), zl(data), zz(tl), zz(ff))
     base = op_coq(op)
     if not base.startswith('Op') or base.split()[0] not in ('OpSubscribe', 'OpUnsubscribe', 'OpAddCa', 'OpCaSubscribe', 'OpCaSubReq', 'OpAddTimer',
-                                                           'OpRemoveTimer', 'OpNotify', 'OpListener', 'OpJob'):
+                                                           'OpRemoveTimer', 'OpNotify', 'OpListener', 'OpJob',
+                                                           'OpCaStart', 'OpCaStop', 'OpCaSendMsg'):
         raise ValueError('op not expressible in the FD model: %r' % (op,))
     return 'O2' + base[2:]
 
